@@ -403,33 +403,35 @@ theorem Cb.size_mk (i : Nat) (p a : Bool) (b : List BodyOp) (regs : List Cb) (e 
     (Cb.mk i p a b regs e).size = 1 + stackSize regs := by
   simp [Cb.size, stackSize]
 
-def runBodyOp (cid : CtxId) (x : Ctx) : BodyOp → Ctx × List Out
+def runBodyOp (cid : CtxId) (cur : Option CtxId) (x : Ctx) : BodyOp → Ctx × List Out
   | .add types name v =>
     ctxAdd cid x ⟨types, 0, name, some v, Option.none, false, Option.none, false⟩
   | .addFactory types name fid =>
     ctxAddFactory cid x ⟨types, name, fid, Option.none, false, false, 0, false⟩
   | .getNowait ty name opt => ctxGetNowait cid x ⟨ty, name⟩ opt
-  | .current => (x, [.cur (some cid)])
+  | .current => (x, [.cur cur])         -- current_context() of the task that is leaving the block
 
-def runBody (cid : CtxId) : Ctx → List BodyOp → Ctx × List Out
+def runBody (cid : CtxId) (cur : Option CtxId) : Ctx → List BodyOp → Ctx × List Out
   | x, [] => (x, [])
   | x, op :: ops =>
-    let (x', o) := runBodyOp cid x op
-    let (x'', os) := runBody cid x' ops
+    let (x', o) := runBodyOp cid cur x op
+    let (x'', os) := runBody cid cur x' ops
     (x'', o ++ os)
 
 /-- `_run_teardown_callbacks`: pop until empty; every callback runs to completion (body,
 registrations, optional raise) before the next is popped; exceptions are collected.
 Operates on the context with its stack taken out (`stack`), registrations are pushed
-onto it. Returns the context, the trace and the collected exceptions. -/
-def runTeardown (cid : CtxId) (be : BlockEnd) : List Cb → Ctx → Ctx × List Out × List Exc
+onto it. `cur` is the current context of the task that is leaving the block: the context itself
+in disciplined use, another one if a context entered by hand inside the block was never left.
+Returns the context, the trace and the collected exceptions. -/
+def runTeardown (cid : CtxId) (cur : Option CtxId) (be : BlockEnd) : List Cb → Ctx → Ctx × List Out × List Exc
   | [], x => (x, [], [])
   | cb :: stack, x =>
     match cb with
     | .mk id passExc _ body regs raises =>
-      let (x', bodyOut) := runBody cid x body
+      let (x', bodyOut) := runBody cid cur x body
       let stack' := regs.reverse ++ stack
-      let (x'', tr, excs) := runTeardown cid be stack' x'
+      let (x'', tr, excs) := runTeardown cid cur be stack' x'
       (x'',
        .tdStart id (if passExc then some be.exc else Option.none) ::
          (if bodyOut.isEmpty then [] else [.body bodyOut]) ++ .tdEnd id raises :: tr,
@@ -590,7 +592,7 @@ def step (w : World) : Op → World × List Out
       if x.state ≠ .opened then (w, [.badOp])
       else
         let x1 := { x with state := .closing, tds := [] }
-        let (x2, tr, excs) := runTeardown c be (effStack be x.tds) x1
+        let (x2, tr, excs) := runTeardown c (w.curOf t) be (effStack be x.tds) x1
         let x3 := { x2 with state := .closed }
         let w1 := (w.setCtx c x3).setCur t (x.token.getD Option.none)
         let w2 := removeChild w1 x.parent c
